@@ -7,24 +7,24 @@ From V Require Import base.Cal rr.RRBase rr.RRNorm rr.RRMasks rr.RRIter rr.RRSpe
 Import ListNotations.
 Open Scope Z_scope.
 
-(* the rules (and, for WEEKLY, numbers of passes) covered: the specification's domain, BYWEEKNO within the
-   RFC range, no BYEASTER (a dateutil extension); YEARLY and MONTHLY: everything else; WEEKLY and DAILY:
-   BYDAY without numeric prefixes (RFC 5545 allows them only under MONTHLY / YEARLY) *)
+(* the rules covered: the specification's domain, BYWEEKNO within the RFC range, no BYEASTER (a dateutil
+   extension); YEARLY and MONTHLY: everything else; WEEKLY and DAILY: BYDAY without numeric prefixes (RFC 5545
+   allows them only under MONTHLY / YEARLY).  The number n of passes is free (it was restricted for WEEKLY before
+   fixes 8ced7a9 / 3426f68; the parameter is kept for the statements that mention it). *)
 Definition coarse_guard (r : raw) (n : nat) : Prop :=
   spec_wf r = true /\ all_opt (r_byweekno r) weekno_safe = true /\ r_byeaster r = None /\
   (r_freq r = YEARLY \/ r_freq r = MONTHLY \/
-   (r_freq r = WEEKLY /\ plain_only r = true /\ (r_bysetpos r <> None -> 1 <= ws0 r) /\
-    (n <> 0%nat -> wlo r (Z.of_nat n - 1) + 6 <= max_ord)) \/
+   (r_freq r = WEEKLY /\ plain_only r = true) \/
    (r_freq r = DAILY /\ plain_only r = true)).
 
 Theorem rrule_iter_correct_coarse : forall r rl limit n,
   normalize r = Ok rl -> coarse_guard r n ->
   fst (iterate rl limit n) = fst (spec_iter r limit n).
 Proof.
-  intros r rl limit n HN (HW & Hs & He & [Hf|[Hf|[(Hf & Hp & Hw & Hn)|[Hf Hp]]]]).
+  intros r rl limit n HN (HW & Hs & He & [Hf|[Hf|[(Hf & Hp)|[Hf Hp]]]]).
   - apply (yearly_iter_correct_noe r rl limit n HN). constructor; assumption.
   - apply (monthly_iter_correct_all r rl limit n HN). constructor; assumption.
-  - apply (weekly_iter_correct_full r rl limit n HN); [constructor; assumption|exact Hw|exact Hn].
+  - apply (weekly_iter_correct_full r rl limit n HN). constructor; assumption.
   - apply (daily_setpos_iter_correct r rl limit n HN). constructor; assumption.
 Qed.
 
